@@ -189,6 +189,20 @@ impl Prop for Hist {
     fn anchors(&self) -> Vec<&'static str> {
         spec(self.id).anchors
     }
+    fn run_witness(&self, w: &serde_json::Value) -> Option<CaseOut> {
+        // explicit witness: {"base_hex": "...", "tape": [..]}  (independent of the generators)
+        if let (Some(h), Some(t)) = (w["base_hex"].as_str(), w["tape"].as_array()) {
+            let bytes = crate::props::c03::hex_decode(h)?;
+            let g = gen::info_from_bytes(&bytes).ok()?;
+            let tape: Vec<u32> = t.iter().filter_map(|x| x.as_u64().map(|v| v as u32)).collect();
+            let rng = Rng::new(1, 1).with_tape(tape);
+            return Some(self.run_on(g, rng, w["max_len"].as_u64().unwrap_or(4) as usize, false, true));
+        }
+        match (w["seed"].as_u64(), w["idx"].as_u64()) {
+            (Some(s), Some(i)) => Some(self.run_case(s, i, false)),
+            _ => None,
+        }
+    }
     fn run_case(&self, seed: u64, idx: u64, want_sample: bool) -> CaseOut {
         let mut out = CaseOut::default();
         let sp = spec(self.id);
@@ -223,9 +237,19 @@ impl Prop for Hist {
                 }
             }
         };
+        let max_len = if tape_mode { 3 } else { sp.max_len };
+        self.run_on(g, rng, max_len, want_sample, tape_mode)
+    }
+}
+
+impl Hist {
+    fn run_on(&self, g: gen::GenModule, mut rng: Rng, max_len: usize, want_sample: bool, tape_mode: bool) -> CaseOut {
+        let mut out = CaseOut::default();
+        let sp = spec(self.id);
         out.ob(if tape_mode { "mode:tape" } else { "mode:random" });
         out.ob(format!("profile:{}", g.profile));
-        let cfg = HistoryCfg { alphabet: sp.alphabet, max_len: if tape_mode { 3 } else { sp.max_len } };
+        let cfg = HistoryCfg { alphabet: sp.alphabet, max_len };
+        rng.clear_record();
         let o = match edit::run_history(&g, &mut rng, &cfg, 1) {
             Ok(o) => o,
             Err(e) => {
@@ -238,17 +262,18 @@ impl Prop for Hist {
         for l in &o.model.log {
             out.ob(format!("op:{}", l.split(' ').next().unwrap_or("")));
         }
-        let id = self.id;
-        let focus = move |d: &SiteDiff| -> bool {
-            match id {
-                // C10/C11 look at everything too; C29 only at names (already filtered)
-                _ => {
-                    let _ = d;
-                    true
-                }
-            }
-        };
+        let focus = move |_d: &SiteDiff| -> bool { true };
         edit::judge(&g, &o, &mut out, sp.want_names, sp.only_names, sp.min_site_kinds, &focus);
+        // explicit, generator-independent witness of this case: base bytes + the choices the driver consumed
+        let choices = rng.recorded_choices();
+        for v in out.violations.iter_mut() {
+            if let Some(m) = v.detail.as_object_mut() {
+                m.insert(
+                    "explicit_witness".into(),
+                    json!({"base_hex": g.bytes.iter().map(|b| format!("{:02x}", b)).collect::<String>(), "tape": choices, "max_len": max_len}),
+                );
+            }
+        }
         if self.id == "C29" {
             // non-trivial for names: at least one named entity moved
             out.nontrivial = out.obs.iter().any(|(k, n)| k == "moved_entities" && *n > 0);
@@ -260,7 +285,6 @@ impl Prop for Hist {
         if want_sample {
             out.sample = Some(edit::history_sample(&g, &o));
         }
-        let _ = json!(null);
         out
     }
 }
